@@ -3,7 +3,7 @@
    Rect/ScanlineModel.v, Rect/RemoveOverlapsModel.v, Rect/RectBase.v (tied to /repo by the correspondence runs of
    checks/c09.py) and the verified checkers of Rect/EntailModel.v (run on every real constraint set). *)
 From Adapt Require Import Num.Qaux Rect.RectBase Rect.ScanlineModel Rect.EntailModel Rect.RemoveOverlapsModel
-  Rect.Entail Rect.Scanline Rect.RemoveOverlaps.
+  Rect.Entail Rect.Scanline Rect.RemoveOverlaps Rect.Chain Rect.Pipeline.
 Local Open Scope Q_scope.
 
 (* every generated constraint graph is a DAG: both generators, both modes, both CmpNodePos variants, any address oracle *)
@@ -73,10 +73,10 @@ Theorem C09_borders_restored mklt solve xB yB rs fixed third r :
 Proof. exact (borders_restored mklt solve xB yB rs fixed third r). Qed.
 Print Assumptions C09_borders_restored.
 
-(* PARTIAL (named so): no overlap after removeoverlaps is proved from (i) the solver's answer satisfying the constraints
-   of the last generating pass (C01's business) and (ii) the entail_check certificate for that pass, which the check
-   evaluates on every instance.  Missing for an unconditional statement: the Dwyer-Marriott-Stuckey chain lemma
-   (genY_entails_no_overlap: entail_check always succeeds on generated sets), not proved here. *)
+(* Certificate form (kept as validation; superseded by C09_pipeline_chain / C09_removeoverlaps_no_overlap below, which
+   use the chain lemma instead of the per-instance certificate): no overlap after removeoverlaps from (i) the solver's
+   answer satisfying the constraints of the last generating pass and (ii) the entail_check certificate for that pass,
+   which the check still evaluates on every instance (model's and implementation's constraint sets). *)
 Theorem C09_pipeline_partial mklt solve xB yB rs fixed third r :
   removeoverlaps mklt solve xB yB rs fixed third = Some r ->
   exists rsl csl pl,
@@ -91,3 +91,80 @@ Theorem C09_pipeline_partial mklt solve xB yB rs fixed third r :
            sat (fun i => nth i pl 0) csl -> no_overlap xB yB (ro_rects r))).
 Proof. exact (C09_pipeline mklt solve xB yB rs fixed third r). Qed.
 Print Assumptions C09_pipeline_partial.
+
+(* ---------------------------------------------------------------- the chain lemma (Dwyer-Marriott-Stuckey), Rect/Chain.v *)
+(* generateYConstraints: for ANY rectangle set (widths/heights >= 0 with the borders in force) and any CmpNodePos that is
+   a strict order, total on the nodes: every placement satisfying the generated constraints keeps every pair whose open
+   x-intervals intersect apart in y by at least the mean of their heights (through a chain of constraints, not
+   necessarily a direct one), hence no pair overlaps with positive area.  No per-instance certificate. *)
+Theorem C09_genY_entails_no_overlap mklt xb yb rs cs :
+  (forall pos, strict (mklt pos)) -> valid_rects xb yb rs -> total_on (mklt (posY yb rs)) (length rs) ->
+  generateYConstraints mklt xb yb rs = Some cs ->
+  forall p, sat p cs ->
+  forall i j, (i < length rs)%nat -> (j < length rs)%nat -> i <> j ->
+    (getMinX xb (nthr rs i) < getMaxX xb (nthr rs j) -> getMinX xb (nthr rs j) < getMaxX xb (nthr rs i) ->
+     p i + (height yb (nthr rs i) + height yb (nthr rs j)) / 2 <= p j \/
+     p j + (height yb (nthr rs i) + height yb (nthr rs j)) / 2 <= p i) /\
+    ~ overlaps_pos xb yb (moveCentreY yb (nthr rs i) (p i)) (moveCentreY yb (nthr rs j) (p j)).
+Proof.
+  exact (fun S V T G p Hp i j Hi Hj Hne =>
+           conj (genY_entails_sep mklt S xb yb rs V cs T G p Hp i j Hi Hj Hne)
+                (genY_entails_no_overlap mklt S xb yb rs V cs T G p Hp i j Hi Hj Hne)).
+Qed.
+Print Assumptions C09_genY_entails_no_overlap.
+
+(* generateXConstraints(..., useNeighbourLists = false), the generator of pass 3: the symmetric statement *)
+Theorem C09_genX_entails_no_overlap mklt xb yb rs cs :
+  (forall pos, strict (mklt pos)) -> valid_rects xb yb rs -> total_on (mklt (posX xb rs)) (length rs) ->
+  generateXConstraints mklt xb yb rs false = Some cs ->
+  forall p, sat p cs ->
+  forall i j, (i < length rs)%nat -> (j < length rs)%nat -> i <> j ->
+    (getMinY yb (nthr rs i) < getMaxY yb (nthr rs j) -> getMinY yb (nthr rs j) < getMaxY yb (nthr rs i) ->
+     p i + (width xb (nthr rs i) + width xb (nthr rs j)) / 2 <= p j \/
+     p j + (width xb (nthr rs i) + width xb (nthr rs j)) / 2 <= p i) /\
+    ~ overlaps_pos xb yb (moveCentreX xb (nthr rs i) (p i)) (moveCentreX xb (nthr rs j) (p j)).
+Proof.
+  exact (fun S V T G p Hp i j Hi Hj Hne =>
+           conj (genX_entails_sep mklt S xb yb rs V cs T G p Hp i j Hi Hj Hne)
+                (genX_entails_no_overlap mklt S xb yb rs V cs T G p Hp i j Hi Hj Hne)).
+Qed.
+Print Assumptions C09_genX_entails_no_overlap.
+
+(* both variants of CmpNodePos are total when the Node objects have distinct addresses *)
+Theorem C09_cmp_total addr ids pos :
+  (forall i j, addr i = addr j -> i = j) ->
+  total_on (cmp_node_pos_addr addr pos) (length pos) /\ total_on (cmp_node_pos_id ids addr pos) (length pos).
+Proof. exact (fun H => conj (cmp_node_pos_addr_total addr pos H) (cmp_node_pos_id_total ids addr pos H)). Qed.
+Print Assumptions C09_cmp_total.
+
+(* the pipeline without the certificate: the model's result is a last pass whose constraint set is acyclic and, if the
+   solver's answer for THAT pass satisfies it, there is no positive-area overlap w.r.t. the caller's borders *)
+Theorem C09_pipeline_chain mklt xB yB solve rs fixed third r :
+  (forall pos, strict (mklt pos)) -> (forall pos, total_on (mklt pos) (length pos)) ->
+  0 <= xB -> 0 <= yB -> good_rects rs ->
+  removeoverlaps mklt solve xB yB rs fixed third = Some r ->
+  exists rsl csl pl,
+    (if third
+     then generateXConstraints mklt (xB + EXTRA_GAP) yB rsl false = Some csl /\
+          pl = solve (posX (xB + EXTRA_GAP) rsl) (weights (length rs) fixed) csl /\
+          ro_rects r = move_all (moveCentreX (xB + EXTRA_GAP)) rsl pl
+     else generateYConstraints mklt xB (yB + EXTRA_GAP) rsl = Some csl /\
+          pl = solve (posY (yB + EXTRA_GAP) rsl) (weights (length rs) fixed) csl /\
+          ro_rects r = move_all (moveCentreY (yB + EXTRA_GAP)) rsl pl) /\
+    acyclic csl /\
+    (length pl = length rsl -> sat (fun i => nth i pl 0) csl -> no_overlap xB yB (ro_rects r)).
+Proof. exact (fun S T X Y => pipeline_chain mklt S T xB yB X Y solve rs fixed third r). Qed.
+Print Assumptions C09_pipeline_chain.
+
+(* removeoverlaps leaves no overlap, given the solver's contract as an explicit premise of the statement: one position
+   per variable and, on an acyclic (hence satisfiable) constraint set, positions that satisfy every constraint.
+   The premise is NOT discharged by a C01 theorem: removeoverlaps calls the static vpsc::Solver, for which /verif has no
+   model (Vpsc/VpscModel.v models IncSolver), and the C01 theorems about the IncSolver model give slack >= -1e-10 for
+   inactive unflagged constraints (C01_sat_on_return), not exact satisfaction.  On the real code the conclusion itself is
+   checked on every run of checks/c09.py (no overlap to 1e-6 on the output of vpsc::removeoverlaps). *)
+Theorem C09_removeoverlaps_no_overlap mklt xB yB solve rs fixed third r :
+  (forall pos, strict (mklt pos)) -> (forall pos, total_on (mklt pos) (length pos)) ->
+  0 <= xB -> 0 <= yB -> solver_contract solve -> good_rects rs ->
+  removeoverlaps mklt solve xB yB rs fixed third = Some r -> no_overlap xB yB (ro_rects r).
+Proof. exact (fun S T X Y => pipeline_no_overlap mklt S T xB yB X Y solve rs fixed third r). Qed.
+Print Assumptions C09_removeoverlaps_no_overlap.
